@@ -344,7 +344,7 @@ func gcSpecs(prop string, tier string, reclaim bool) []*XSpec {
 		return &XSpec{Property: prop, Name: fmt.Sprintf("%s-L%d-post%d", c.Name, L, post), Cfg: c, Alphabet: al, Depth: L + 4, Keys: ks, Exec: gcExec(reclaim), Prune: pr}
 	}
 	if tier == "quick" {
-		return []*XSpec{mk(cfgGC1(), 3, 2), mk(cfgGC2(), 5, 1), mk(cfgGC1(), 4, 1)}
+		return []*XSpec{mk(cfgGC1(), 3, 2), mk(cfgGC2(), 5, 1), mk(cfgGC1(), 4, 0)}
 	}
 	return []*XSpec{mk(cfgGC1(), 4, 2), mk(cfgGC2(), 5, 2), mk(cfgGC1(), 5, 1), mk(cfgGC2(), 7, 1), mk(cfgGC3(), 9, 0)}
 }
